@@ -27,6 +27,11 @@ CLAIMS = {
         technique="Kani/CBMC inductive-step harness on Writer::append / prepare_data over arbitrary writer position and segment size",
         text="Bounded stand-in: append returns SegmentFull exactly when write offset + 8 + H + stored length exceeds the segment size (stored length = data, or 4 + codec output when compression applies), otherwise succeeds at the old offset; a refused append changes neither offset.",
         note="PARTIAL: the seglog layer only. NOT decided: the database's size estimate and rollover decision in Worker::handle_append_events (the estimate ignores compression expansion: candidate in DESIGN §10, not under contract), retry behaviour. zstd's output size is modelled as data + 1."),
+    "C02": dict(
+        category="other", design_ref="§4 C25 (U04), §5 U12",
+        technique="Verus proof + complete Kani harnesses on validate_partition_sequence / ExpectedVersion algebra (U04) and bounded Kani harnesses on WriterSet::validate_event_versions extracted verbatim (model HashMap, index lookup behind a contract) against the one spec `accepts`",
+        text="Partition-sequence half (proof, all u64): the store accepts exactly when `accepts(expected, current)`, the rejection reports the actual state. Stream half (bounded: transactions of <= 2 events over <= 2 streams, <= 1 pending append, versions/expectations full-range, arbitrary indexed state): validate_event_versions returns Ok iff every event's expectation holds against the stream state EXTENDED by the earlier events of the same transaction and every touched stream carries the transaction's partition key; the returned versions are the versions each event saw; rejections name the right reason.",
+        note="category `other`: the stream half is a bounded stand-in. NOT decided: WriterSet::handle_write (assignment of sequences/versions, pending-index bookkeeping), `a rejected append changes nothing observable` at Worker::handle_append_events level (set_len path), next_partition_sequence, agreement of pending / open-index / closed-index lookups across reopen (read_stream_latest_version is a callee behind an assumed contract), the latest-version / latest-sequence queries."),
     "C03": dict(
         category="proof", design_ref="§6 U15",
         technique="Verus contracts on SegmentIter::{new,is_finished,remaining_offsets,skip} extracted verbatim: forward scans visit offsets[idx..], reverse scans visit offsets[..=idx] backwards; replay through the real Database (scenario driver DB)",
@@ -95,7 +100,6 @@ CLAIMS = {
 }
 
 NOT_APPLICABLE = {
-    "C02": "not decided in this build: the Kani harness for WriterSet::validate_event_versions (units/U12, real text against the model HashMap) runs CBMC out of memory even at 2 events / 3 streams, Verus rejects its hash_map::Entry matching, and handle_write needs the whole writer environment; the partition-sequence half (validate_partition_sequence == accepts == is_satisfied_by) is proved under C25 (DESIGN A.3)",
     "C07": "not decided in this build: the watermark gates sit inside async actor handlers (slices R4/R5 not built); only AtomicWatermark::can_read(s) == (s < get()) is under contract, reported under C08 (DESIGN A.3)",
     "C22": "not decided in this build: the response-construction slices of the async request handlers (R4/R5) were not built (DESIGN A.3)",
     "C06": "crash between sealing a segment and the background index flush: recovery of a missing/short index is not a function of the code base (DatabaseBuilder::open propagates the error), runs across a rayon pool; no contract on an existing function expresses it (DESIGN §9)",
